@@ -6,6 +6,7 @@ import Driver.C11
 import Driver.C01
 import Driver.C08
 import Driver.C06
+import Driver.C18
 import Driver.C10
 import Driver.C17
 
@@ -18,6 +19,7 @@ def dispatch (line : String) : String :=
   | "C01" :: r => Driver.C01.handle r
   | "C08" :: r => Driver.C08.handle r
   | "C06" :: r => Driver.C06.handle r
+  | "C18" :: r => Driver.C18.handle r
   | "C10" :: r => Driver.C10.handle r
   | "C17" :: r => Driver.C17.handle r
   | _ => "bad-request"
